@@ -1,133 +1,15 @@
-(* CodeServer.v — src/server.rs (collect_requests) and src/responder.rs as translated from the
-   source on this run (Gen/Code.v), against Model/Server.v.
-
-   Environment of the translated code: the UDP socket is the queue of waiting datagrams
-   (GenSupport.sock_recv: WouldBlock on an empty queue), the statistics recorder is the list of
-   recorded events, the two responders are the model's records. *)
+(* CodeRespond.v — src/responder.rs (send_responses, add_*_request, reset) and Server::process_events as
+   translated on this run, against Model/Server.v *)
 Require Import RV.Model.Bytes RV.Gen.Tables RV.Model.Tag RV.Model.Message RV.Model.Merkle RV.Model.Request
         RV.Model.Keys RV.Model.Server RV.Model.GenSupport RV.Gen.Code.
-Require Import RV.Proofs.BytesFacts RV.Proofs.CodeFacts.
+Require Import RV.Proofs.BytesFacts RV.Proofs.CodeLib.
 From Coq Require Import ZArith Lia ZifyN ZifyBool ZifyNat List.
 Import ListNotations.
 Local Open Scope N_scope.
-
-Definition omap {A B} (f : A -> B) (x : res A) : res B :=
-  match x with Ok a => Ok (f a) | Err e => Err e | Panic s => Panic s end.
-
-Lemma ks_slice_prefix : forall (d rest : bytes),
-  slice_n (E:=error) site_gen (d ++ rest) 0 (lenN d) = Ok d.
-Proof.
-  intros d rest. unfold slice_n, slice, lenN. change (N.to_nat 0) with 0%nat. rewrite Nat2N.id.
-  rewrite app_length. replace ((length d <? 0)%nat || (length d + length rest <? length d)%nat) with false by lia.
-  cbn [skipn]. rewrite Nat.sub_0_r, firstn_app, Nat.sub_diag, firstn_all. cbn [firstn]. rewrite app_nil_r. reflexivity.
-Qed.
-
-Section Collect.
-  Variable H : bytes -> bytes.
-  Variable srv : bytes.
-  Variable cfg : config.
-
-  (* the body of the translated loop, as it stands in Gen/Code.v after unfolding *)
-  Definition keep5 (x : res ((list dgram * bytes * responder * list sev * responder) * option bool))
-    : res ((list dgram * responder * list sev * responder) * option bool) :=
-    omap (fun '((q, _, ri, st, rc), o) => ((q, ri, st, rc), o)) x.
-
-  Lemma ks_collect_loop : forall (F : _ -> N -> _),
-    (forall s i, F s i =
-       (let '(q0, b0, ri0, st0, rc0) := s in
-        let '(sc, (q1, b1)) := sock_recv q0 b0 in
-        match sc with
-        | Ok (num_bytes, src_addr) =>
-            obind (match gen_nonce_from_request b1 num_bytes srv with
-                   | Ok (nonce, RfcDraft13) =>
-                       obind (slice_n site_gen b1 0 num_bytes) (fun rb =>
-                       obind (lift (responder_add H ri0 rb nonce src_addr)) (fun ri1 =>
-                       Ok (ri1, st0 ++ [SIetfRequest src_addr], rc0)))
-                   | Ok (nonce, Google) =>
-                       obind (lift (responder_add H rc0 nonce nonce src_addr)) (fun rc1 =>
-                       Ok (ri0, st0 ++ [SClassicRequest src_addr], rc1))
-                   | Err _ => Ok (ri0, st0 ++ [SInvalidRequest src_addr], rc0)
-                   | Panic s => Panic s
-                   end) (fun '(ri2, st2, rc2) => Ok ((q1, b1, ri2, st2, rc2), None))
-        | Err e =>
-            match e with
-            | WouldBlock => obind (Ok true) (fun r => Ok ((q1, b1, ri0, st0, rc0), Some r))
-            | _ => obind (Ok false) (fun r => Ok ((q1, b1, ri0, st0, rc0), Some r))
-            end
-        | Panic s => Panic s
-        end)) ->
-    forall (l : list N) q buf ri rc st i,
-    keep5 (loop_sr F l (q, buf, ri, st, rc))
-    = obind (collect H srv cfg ri rc (firstn (length l) q) i) (fun '(ri', rc', sts, _) =>
-        Ok ((skipn (length l) q, ri', st ++ sts, rc'),
-            if (length q <? length l)%nat then Some true else None)).
-  Proof.
-    intros F HF. induction l as [|x l IH]; intros q buf ri rc st i.
-    - cbn [loop_sr length firstn skipn collect obind keep5 omap]. rewrite app_nil_r.
-      replace (length q <? 0)%nat with false by lia. reflexivity.
-    - cbn [loop_sr length]. rewrite HF.
-      destruct q as [|[a d] q].
-      + cbn [sock_recv obind firstn skipn collect keep5 omap length Nat.ltb Nat.leb]. rewrite app_nil_r. reflexivity.
-      + cbn [sock_recv firstn skipn collect length].
-        rewrite gen_nonce_from_request_model.
-        replace (S (length q) <? S (length l))%nat with (length q <? length l)%nat by lia.
-        destruct (classify srv d) as [[nonce [|]]|e|s]; cbn [obind].
-        * (* classic *)
-          destruct (lift (responder_add H rc nonce nonce a)) as [rc1| |]; cbn [obind keep5 omap]; try reflexivity.
-          fold (keep5 (loop_sr F l (q, d ++ skipn (length d) buf, ri, st ++ [SClassicRequest a], rc1))).
-          rewrite (IH q _ ri rc1 _ (S i)).
-          destruct (collect H srv cfg ri rc1 (firstn (length l) q) (S i)) as [[[[ri' rc'] sts] lg]| |]; cbn [obind]; try reflexivity.
-          rewrite <- app_assoc. reflexivity.
-        * (* IETF *)
-          rewrite ks_slice_prefix. cbn [obind].
-          destruct (lift (responder_add H ri d nonce a)) as [ri1| |]; cbn [obind keep5 omap]; try reflexivity.
-          fold (keep5 (loop_sr F l (q, d ++ skipn (length d) buf, ri1, st ++ [SIetfRequest a], rc))).
-          rewrite (IH q _ ri1 rc _ (S i)).
-          destruct (collect H srv cfg ri1 rc (firstn (length l) q) (S i)) as [[[[ri' rc'] sts] lg]| |]; cbn [obind]; try reflexivity.
-          rewrite <- app_assoc. reflexivity.
-        * (* rejected *)
-          fold (keep5 (loop_sr F l (q, d ++ skipn (length d) buf, ri, st ++ [SInvalidRequest a], rc))).
-          rewrite (IH q _ ri rc _ (S i)).
-          destruct (collect H srv cfg ri rc (firstn (length l) q) (S i)) as [[[[ri' rc'] sts] lg]| |]; cbn [obind]; try reflexivity.
-          rewrite <- app_assoc. reflexivity.
-        * reflexivity.
-  Qed.
-End Collect.
-
-(* Server::collect_requests as translated: reads at most batch_size datagrams off the queue, hands
-   each to the translated classifier, queues the accepted ones on the responder of their protocol
-   and records one statistics event per datagram — exactly the model's `collect` on the datagrams
-   read; it reports "socket now empty" exactly when fewer than batch_size were waiting. The receive
-   buffer (stale bytes after the datagram) is the only component not compared. *)
-Theorem gen_collect_requests_model : forall H srv cfg n q buf ri rc st i,
-  omap (fun '(b, (q', _, ri', rc', st')) => (b, q', ri', rc', st'))
-       (gen_collect_requests H (N.of_nat n) q buf srv ri rc st)
-  = obind (collect H srv cfg ri rc (firstn n q) i) (fun '(ri', rc', sts, _) =>
-      Ok ((length q <? n)%nat, skipn n q, ri', rc', st ++ sts)).
-Proof.
-  intros H srv cfg n q buf ri rc st i. unfold gen_collect_requests.
-  match goal with |- omap _ (obind (loop_sr ?F ?l ?s) ?K) = _ =>
-    pose proof (ks_collect_loop H srv cfg F) as HL; set (FF := F) in *
-  end.
-  assert (HF : forall s i0, FF s i0 = FF s i0) by reflexivity.
-  specialize (HL ltac:(intros [[[[q0 b0] ri0] st0] rc0] i0; reflexivity)).
-  specialize (HL (range_n 0 (N.of_nat n)) q buf ri rc st i).
-  assert (Hlen : length (range_n 0 (N.of_nat n)) = n).
-  { unfold range_n. rewrite map_length, seq_length. lia. }
-  rewrite Hlen in HL.
-  destruct (loop_sr FF (range_n 0 (N.of_nat n)) (q, buf, ri, st, rc)) as [[[[[[q' b'] ri'] st'] rc'] o]| |];
-    cbn [keep5 omap obind] in *.
-  - destruct (collect H srv cfg ri rc (firstn n q) i) as [[[[ri2 rc2] sts] lg]| |]; cbn [obind] in *; try discriminate.
-    injection HL as -> -> -> -> ->.
-    destruct (length q <? n)%nat; reflexivity.
-  - destruct (collect H srv cfg ri rc (firstn n q) i) as [[[[ri2 rc2] sts] lg]| |]; cbn [obind] in *; try discriminate.
-    injection HL as ->. reflexivity.
-  - destruct (collect H srv cfg ri rc (firstn n q) i) as [[[[ri2 rc2] sts] lg]| |]; cbn [obind] in *; try discriminate.
-    injection HL as ->. reflexivity.
-Qed.
+Require Import RV.Proofs.CodeCollect.
 
 (* ------------------------------------------------------------------ responder.rs *)
-Require Import RV.Proofs.CodeClient RV.Proofs.CodeKeys.
+Require Import RV.Proofs.CodeOnline RV.Proofs.CodeResp.
 
 Lemma gen_responder_add_classic_model : forall H r nonce src,
   omap (fun '(t, rq) => mkresp (r_version r) (r_online_seed r) (r_cert_bytes r) rq t)
@@ -409,9 +291,6 @@ Proof.
   - injection Hm as ->. reflexivity.
   - injection Hm as ->. reflexivity.
 Qed.
-
-Lemma ks_ok_opt_some : forall A (x : res A) a, ok_opt x = Some a -> x = Ok a.
-Proof. intros A [b| |] a Hx; cbn in Hx; try discriminate. injection Hx as ->. reflexivity. Qed.
 
 Lemma ks_none_bind : forall A B C (x : res A) (K : A -> res B) (f : B -> C),
   ok_opt x = None -> ok_opt (omap f (obind x K)) = None.
